@@ -23,7 +23,12 @@ def count_paths(body, label_fn, max_states=4096):
             lab = label_fn(bi, node)
             if lab is not None:
                 d = dict(s.user or ())
-                d[lab] = min(2, d.get(lab, 0) + 1)
+                if lab.startswith("call* "):
+                    # re-polling an awaited crate future: the callee body runs once
+                    lab = "call " + lab[6:]
+                    d[lab] = 1
+                else:
+                    d[lab] = min(2, d.get(lab, 0) + 1)
                 return s.with_user(tuple(sorted(d.items())))
         return None
     at, entry = dataflow(body, init_user=(), node_fn=node_fn, max_states=max_states)
@@ -729,6 +734,8 @@ def check_C15(rep, fl):
                 args = [norm(y) for y in x.call_args(t)]
                 if any(mentions(y, ("field", V("self"), "items_rx")) for y in args):
                     recvs.append(strip_generics(x.raw["root"]))
+    other = "r#async" if fl.name == "sync" else "::sync::"
+    recvs = [r for r in recvs if other not in r]
     rep.check(set(recvs) <= {fl.pproc + "::spawn"} and recvs, "R15.4", fl, fl.pproc, "only the worker receives", "items_rx is read only by the policy worker loop", "items_rx is read in %s" % sorted(set(recvs)))
 
 
